@@ -119,6 +119,30 @@ pub fn through_history(files: &Files, seed: u64) -> (Json, Json, Json) {
             }
         }
     }
+    // an id whose final content defines `pkg.Name` as one kind held, before, the SAME key as another kind
+    // (replaced in place: whatever was derived from the earlier kind must be gone)
+    if !files.is_empty() && r.chance(1, 2) {
+        for _ in 0..r.range(1, 2) {
+            let (id, text) = r.pick(files).clone();
+            let mut q: Parser<String> = Parser::new();
+            q.add_content(id.clone(), &text);
+            let keys: Vec<(String, &'static str)> = q.verif_item_keys().iter().map(|(k, v)| (k.clone(), dump::rkind(v))).collect();
+            if let Some((key, kind)) = keys.first() {
+                if let Some(k) = key.rfind('.') {
+                    let others: Vec<&str> = ["parcelable", "interface", "enum"].iter().copied().filter(|x| x != kind).collect();
+                    let nk = *r.pick(&others);
+                    let body = if nk == "enum" { "{ A }" } else { "{}" };
+                    let c = format!("package {};\n{} {} {}\n", &key[..k], nk, &key[k + 1..], body);
+                    log.push(Json::Arr(vec![Json::s("add"), Json::s(id.clone()), Json::s(c.clone())]));
+                    p.add_content(id.clone(), &c);
+                    if r.chance(1, 2) {
+                        log.push(Json::Arr(vec![Json::s("validate")]));
+                        let _ = p.validate();
+                    }
+                }
+            }
+        }
+    }
     if extra && !files.iter().any(|f| f.0 == "zz_extra") {
         log.push(Json::Arr(vec![Json::s("remove"), Json::s("zz_extra")]));
         p.remove_content("zz_extra".to_owned());
@@ -1684,8 +1708,13 @@ pub fn run(suite: &str, thorough: bool, seed: u64, shard: usize, nshards: usize,
                         let mut exp = exp_pars.join("\n");
                         for t in 0..ntags {
                             let clause = format!("@param p{} {}", t, *r.pick(&words));
-                            raw.push_str(eol);
-                            raw.push_str(" * ");
+                            if r.chance(1, 3) {
+                                // a tag clause that follows words (or another clause) on the SAME source line is a clause all the same
+                                raw.push_str(*r.pick(&[" ", "  ", "\t"]));
+                            } else {
+                                raw.push_str(eol);
+                                raw.push_str(" * ");
+                            }
                             raw.push_str(&clause);
                             exp.push('\n');
                             exp.push_str(&clause);
